@@ -119,9 +119,23 @@ theorem examples_cover_catalogue :
       ≥ catalogue.length := by
   decide +kernel
 
+/-! ### What `--explain` prints first -/
+
+/-- the header of an explanation is the check's own code, its name and its categories in brackets, in that order -/
+theorem header_shape (c : CheckInfo) :
+    c.explainHeader = c.pfx ++ toString c.code ++ ": " ++ (if c.hasName then c.name else "<name unknown>") ++ " "
+      ++ " ".intercalate (c.categories.map (fun x => "[" ++ x ++ "]")) := rfl
+
+/-- **Every reportable code is explained under its own header**: `explain` finds the check itself (above), and no two checks
+    of today's catalogue print the same header line (code, name and categories identify the check) — so the first line of
+    `refurb --explain CODE` names exactly the check that reports CODE. -/
+theorem headers_identify_checks : (catalogue.map CheckInfo.explainHeader).Nodup := by decide +kernel
+
 /-! ### Non-vacuity -/
 
 example : catalogue.length ≥ 90 := by decide +kernel
+example : (catalogue.find? (fun c => c.code == 123)).map CheckInfo.explainHeader
+    = some "FURB123: no-redundant-cast [readability]" := by decide +kernel
 example : (match explain catalogue ("FURB", 123) with | .found c => c.code == 123 | _ => false) = true := by
   decide +kernel
 
